@@ -53,7 +53,7 @@ def cases(draw, name, tier):
     if tier == "quick":
         case["exc"] = draw(st.lists(st.sampled_from(EXC_NAMES), min_size=2, max_size=2, unique=True))
     else:
-        case["exc"] = list(EXC_NAMES)
+        case["exc"] = draw(st.lists(st.sampled_from(EXC_NAMES), min_size=6, max_size=6, unique=True))
     if name in AGG_TOOLS and case["fns"]:
         # aggregations are coroutines: a user callable raising the iteration protocol's own exception
         # must come through like any other error (generator-based tools cannot: PEP 479/525)
@@ -116,6 +116,25 @@ def check_one(c):
             i, x, y = d
             raise Violation(f"C06/{tool}/trace-differs-under-fault",
                             f"fault={c['fault_at']} event {i}: async={x} stdlib={y}", case=c)
+        failed = sorted({e[1] for e in av if e[0] == "raise"})
+        if failed:
+            # "... and the source/callable is not used again afterwards": the failed iterator is asked once more
+            # (library side only - what the stdlib counterparts do then differs from tool to tool)
+            c2 = copy.deepcopy(c)
+            c2["plan"] = list(c2.get("plan") or []) + [["again", o] for o in failed]
+            b2, outcome2 = run_async(c2)
+            expect_return(outcome2, f"C06/{tool}", c2)
+            inside, used = False, []
+            for e in b2.ctx.log:
+                if e[0] == "again-begin":
+                    inside = True
+                elif e[0] == "again-end":
+                    inside = False
+                elif inside and e[0] in ("pull", "call", "item", "repull"):
+                    used.append(e)
+            if used:
+                raise Violation(f"C06/{tool}/used-again-after-the-failure",
+                                f"fault={c['fault_at']}: asking the failed iterator again did {used[:3]}", case=c)
     else:
         log = ba.ctx.log
         idx = next((i for i, e in enumerate(log) if e[0] in ("fault", "cfault")), None)
@@ -179,7 +198,7 @@ def groupby_cases(draw, tier):
 
     case = draw(c16.histories(tier))
     case["exc"] = draw(st.lists(st.sampled_from(EXC_NAMES), min_size=2, max_size=2, unique=True)) \
-        if tier == "quick" else list(EXNAMES_ALL)
+        if tier == "quick" else draw(st.lists(st.sampled_from(EXC_NAMES), min_size=6, max_size=6, unique=True))
     return case
 
 
@@ -288,7 +307,8 @@ class FaultError(RuntimeError):
 
 
 _TEE_EXC = {"FaultError": FaultError, "RuntimeError": RuntimeError, "ValueError": ValueError, "KeyError": KeyError,
-            "LookupError": LookupError, "TypeError": TypeError}
+            "LookupError": LookupError, "TypeError": TypeError, "IndexError": IndexError, "OSError": OSError,
+            "AssertionError": AssertionError, "AttributeError": AttributeError, "EOFError": EOFError}
 
 
 @st.composite
